@@ -176,6 +176,7 @@ type Conn struct {
 	firstKexDone   bool
 	// SeqAtNewKeys records the sequence numbers seen right after each NEWKEYS (for strict-kex checks).
 	SeqOutAfterNewKeys, SeqInAfterNewKeys []uint32
+	inBeforeWrite                         bool
 }
 
 // ---- version exchange ----
@@ -235,6 +236,11 @@ func (c *Conn) WritePacket(payload []byte) error {
 }
 
 func (c *Conn) writeLocked(payload []byte) error {
+	if c.Cfg.Ext != nil && c.Cfg.Ext.BeforeWrite != nil && !c.inBeforeWrite {
+		c.inBeforeWrite = true
+		c.Cfg.Ext.BeforeWrite(c, payload) // may call c.KexWrite to put packets in front of this one
+		c.inBeforeWrite = false
+	}
 	if c.Cfg.OnPacketOut != nil {
 		c.Cfg.OnPacketOut(c.SeqOut, payload)
 	}
